@@ -13,11 +13,13 @@ Open Scope list_scope.
 Notation length := List.length (only parsing).
 
 (* ---------- more state-change lemmas ---------- *)
-Lemma TInvR_core_eq r s s' : core_eq s s' -> TInvR r s -> TInvR r s'.
+Lemma TInvR_set_foster v t r s : TInvR t r s -> TInvR t r (set_foster_parenting v s).
 Proof.
-  intros C H. destruct r; simpl in *; try (eapply TInv_core_eq; eassumption); try exact H.
-  destruct H as [H N]. split; [|exact N]. eapply TInv_core_eq; [|exact H].
-  destruct C as (A1&A2&A3&A4&A5&A6&A7&A8&A9&A10&A11). repeat split; simpl; assumption.
+  assert (X : forall s0, TInv s0 -> TInv (set_foster_parenting v s0)).
+  { intros s0 I. eapply TInv_core_eq; [apply core_eq_set_foster_parenting | exact I]. }
+  intro H. destruct r; simpl in *; try (apply X; exact H); try exact H.
+  - destruct H as [H N]. split; [|exact N]. eapply TInv_core_eq; [|exact (X _ H)]. repeat split.
+  - destruct H as [H E]. split; [apply X; exact H | exact E].
 Qed.
 
 (* leaving Text / InTableText for the saved mode *)
@@ -316,6 +318,33 @@ Proof.
   - exact AE.
 Qed.
 
+(* events emitted after an indicator result do not hide it *)
+Lemma enc_tail_prepend s s' l evs : out s' = evs ++ out s -> forallb (fun ev => negb (is_enc_probe ev)) evs = true ->
+  opts s' = opts s -> forall t, enc_tail t s l -> enc_tail t s' l.
+Proof.
+  intros O F Op t (post & k & h & name & attrs & En & Ea & (older & Eo & Rest) & Fp & Kk & Dm).
+  exists (evs ++ post), k, h, name, attrs. split; [exact En | split; [exact Ea|]].
+  split; [exists older; split; [rewrite O, Eo, app_assoc; reflexivity | exact Rest]|].
+  split; [rewrite forallb_app, F, Fp; reflexivity|]. split; [exact Kk|].
+  intro D. apply Dm. unfold dev_on in *. rewrite <- Op. exact D.
+Qed.
+
+Lemma wp_remove_from_stack_named_out s node name (Q : unit -> st -> Prop) :
+  TInv s -> late s -> ename_of s node = (ns_html, name) -> name <> nm "html" ->
+  (forall s', keeps s s' -> (exists evs, out s' = evs ++ out s /\ forallb (fun ev => negb (is_enc_probe ev)) evs = true) -> Q tt s') ->
+  wp (remove_from_stack node) Q s.
+Proof.
+  intros I L En N H. assert (K : keeps s s) by (apply keeps_refl; exact I).
+  unfold remove_from_stack. rewrite wp_bind, wp_get.
+  destruct (rposition (same_node node) (open_elems s)) as [p|] eqn:Ep; [|rewrite wp_ret; apply H; [exact K | exists []; split; reflexivity]].
+  apply rposition_some in Ep. destruct Ep as (y & Ey & Sy). unfold same_node in Sy. apply Nat.eqb_eq in Sy. subst y.
+  destruct (TInv_stack_nonempty _ I L) as (r & rest & Est & Nr).
+  assert (Lp : 1 <= p) by (eapply named_not_root; eassumption).
+  rewrite wp_bind, wp_modify, wp_emit. apply H; [|exists [EvOp (OpPop node)]; split; reflexivity].
+  apply keeps_emit; [apply keeps_vremove_stack; assumption | reflexivity | reflexivity |]. cbn [op_okb].
+  apply known_v_elem. change (known s node). eapply TInv_stack_known; [exact I | eapply nth_error_In; exact Ey].
+Qed.
+
 (* ---------- AfterHead ---------- *)
 Lemma after_head_facts :
   forallb (lands heads_in_body [3]) (nth 3 heads_after_head []) = true /\
@@ -385,13 +414,14 @@ Proof.
     assert (Nr : is_reprocess r = false).
     { destruct (is_reprocess r) eqn:Er; [|reflexivity]. exfalso. specialize (Hr eq_refl).
       destruct Hk as [X|[X|[X|[X|[X|[]]]]]]; rewrite <- X in Hr; simpl in Hr; intuition discriminate. }
-    assert (Is' : TInv s') by (destruct r; simpl in TR, Nr; try exact TR; [discriminate Nr | destruct TR]).
+    assert (Is' : TInv s') by (destruct r; simpl in TR, Nr; try exact TR; [discriminate Nr | destruct TR | exact (proj1 TR)]).
     assert (Eh' : head_elem s' = Some hd) by (rewrite Hh; exact Eh).
     assert (Nh' : ename_of s' hd = (ns_html, nm "head")) by (apply (proj1 (inv_ptr _ Is')); exact Eh').
     rewrite wp_bind.
-    eapply (wp_remove_from_stack_named s' s' hd (nm "head")); [apply keeps_refl; exact Is' | exact Ls' | exact Nh' | exact head_not_html |].
-    intros s'' K''. rewrite wp_ret. split; [|exact RO].
-    destruct r; simpl in Nr |- *; try exact (keeps_TInv _ _ K''); [discriminate Nr | destruct TR].
+    eapply (wp_remove_from_stack_named_out s' hd (nm "head")); [exact Is' | exact Ls' | exact Nh' | exact head_not_html |].
+    intros s'' K'' (evs & Oe & Fe). rewrite wp_ret. split; [|exact RO].
+    destruct r; simpl in Nr, TR |- *; try exact (keeps_TInv _ _ K''); [discriminate Nr | destruct TR |].
+    split; [exact (keeps_TInv _ _ K'')|]. eapply enc_tail_prepend; [exact Oe | exact Fe | exact (st_opts _ _ (proj2 K'')) | exact (proj2 TR)].
   - (* 7 </template> *) apply (in_head_delegated s1 t _ I1 L1 NS1 Sc F7 N7 Hm).
   - exact AE.
   - apply arm_unexpected; exact I1.
@@ -486,7 +516,7 @@ Proof.
   intros I L NSC Sc. unfold foster_parent_in_body. rewrite wp_bind, wp_modify, wp_bind.
   eapply wp_mono; [apply step_in_body_ok; [eapply TInv_core_eq; [apply core_eq_set_foster_parenting | exact I] | exact L | exact NSC | exact Sc]|].
   intros r s' [[TR RO] Cd]. rewrite wp_bind, wp_modify, wp_ret. split; [split; [|exact RO] | exact Cd].
-  eapply TInvR_core_eq; [apply core_eq_set_foster_parenting | exact TR].
+  apply TInvR_set_foster. exact TR.
 Qed.
 
 Lemma foster_chars_keeps s t : TInv s -> late s -> is_chars t = true ->
